@@ -5,6 +5,10 @@
 package c08
 
 import (
+	"reflect"
+
+	"golang.org/x/text/unicode/norm"
+
 	"bytes"
 	"crypto/sha256"
 	"encoding/hex"
@@ -99,6 +103,9 @@ type base struct {
 	digest string  // head.dig.val
 	gdoc   *c07.JV // json.Marshal(e.Document) as GOBL sees it, normalised
 	text   string  // the genuine envelope text
+	// the document as GOBL holds it after reading the genuine text (nil: reading it twice does not
+	// give deeply equal values, so values cannot be compared for this base)
+	payload any
 }
 
 var (
@@ -193,7 +200,7 @@ func enumerate(doc *c07.JV) []*edit {
 			// encoding/json where it is a struct
 			if len(p) >= 2 {
 				if _, i := member(v, addedKey); i < 0 {
-					out = append(out, &edit{Kind: "add-member", Path: p, Key: addedKey})
+					out = append(out, &edit{Kind: "add-member", Path: p, Key: addedKey}, &edit{Kind: "add-empty-member", Path: p, Key: addedKey})
 				}
 			}
 			// … and the complement: a member whose value is null is no content
@@ -262,6 +269,14 @@ func enumerate(doc *c07.JV) []*edit {
 				// (the hex digits of a UUID are case-insensitive: another spelling of the same value, not an edit)
 				if r := v.S[0]; ((r >= 'a' && r <= 'z') || (r >= 'A' && r <= 'Z')) && !reUUID.MatchString(v.S) {
 					out = append(out, &edit{Kind: "toggle-case", Path: p})
+				}
+				// another sequence of code points that renders the same (canonically equivalent Unicode):
+				// a different string all the same
+				if norm.NFD.String(v.S) != v.S {
+					out = append(out, &edit{Kind: "unicode-nfd", Path: p})
+				}
+				if norm.NFC.String(v.S) != v.S {
+					out = append(out, &edit{Kind: "unicode-nfc", Path: p})
 				}
 			}
 		}
@@ -392,6 +407,18 @@ func apply(doc *c07.JV, e *edit) *c07.JV {
 	case "add-member":
 		par := at(d, e.Path)
 		par.M = append(par.M, c07.Member{K: e.Key, V: &c07.JV{K: c07.Str, S: "added"}})
+	case "add-empty-member": // the smallest value a member can have that is not null
+		par := at(d, e.Path)
+		par.M = append(par.M, c07.Member{K: e.Key, V: &c07.JV{K: c07.Str, S: ""}})
+	case "unicode-nfd", "unicode-nfc":
+		x := at(d, e.Path)
+		e.Was = x.S
+		if e.Kind == "unicode-nfd" {
+			x.S = norm.NFD.String(x.S)
+		} else {
+			x.S = norm.NFC.String(x.S)
+		}
+		e.Now = x.S
 	case "add-sibling-member":
 		par := at(d, e.Path)
 		par.M = append(par.M, c07.Member{K: e.Key, V: clone(e.val)})
@@ -452,6 +479,7 @@ type outcome struct {
 	detail       string
 	digestSame   bool   // Envelope.Digest() equals head.dig
 	gdocSame     bool   // json.Marshal(e.Document) has the base's content
+	valueSame    bool   // the document GOBL holds after reading the text is deeply equal to the base's (true when unknown)
 	calcErr      string // error of Calculate on the edited envelope
 	newDigest    string // head.dig.val after Calculate
 	newSameAsOld bool   // … equals the base digest
@@ -486,6 +514,10 @@ func present(b *base, text string, recalc bool) (o outcome) {
 	}
 	if o.class == "parse-error" {
 		return
+	}
+	o.valueSame = true
+	if b.payload != nil && env.Document != nil {
+		_ = core.Protect(func() { o.valueSame = reflect.DeepEqual(env.Extract(), b.payload) })
 	}
 	// the verdict belongs to the text: a value that held the genuine envelope before (a reused,
 	// pooled or cached object) must judge the text exactly like a fresh one
@@ -578,7 +610,12 @@ func loadBase(name, text string) (*base, string) {
 	if err != nil {
 		return nil, err.Error()
 	}
-	return &base{name: name, env: tree, doc: doc, docIdx: di, digest: env.Head.Digest.Value, gdoc: c07.Norm(g), text: text}, ""
+	bs := &base{name: name, env: tree, doc: doc, docIdx: di, digest: env.Head.Digest.Value, gdoc: c07.Norm(g), text: text}
+	env2 := new(gobl.Envelope)
+	if json.Unmarshal([]byte(text), env2) == nil && reflect.DeepEqual(env.Extract(), env2.Extract()) {
+		bs.payload = env.Extract()
+	}
+	return bs, ""
 }
 
 func lastName(path []string) string {
@@ -778,7 +815,7 @@ func Run(c *core.Ctx) int {
 			for _, j := range jobs {
 				// also every edit of the small generated bases and every sign / line-ending edit
 				if len(j.e.Path) <= 1 || strings.HasPrefix(j.b.name, "generated/") || j.e.Kind == "negate-leaf" || j.e.Kind == "swap-cr-lf" ||
-					j.e.Kind == "swap-distinct" || j.e.Kind == "respell-float" || j.e.Kind == "add-null-sibling-member" || len(keep) < want {
+					j.e.Kind == "swap-distinct" || j.e.Kind == "respell-float" || j.e.Kind == "unicode-nfd" || j.e.Kind == "unicode-nfc" || j.e.Kind == "add-empty-member" || j.e.Kind == "add-null-sibling-member" || len(keep) < want {
 					keep = append(keep, j)
 				}
 			}
@@ -945,7 +982,7 @@ func editRequest(doc, d2 *c07.JV, e *edit) (string, bool) {
 	case "remove-member":
 		n := len(e.Path) - 1
 		return "edit del " + pathToks(e.Path[:n]) + " " + encKey(e.Path[n]) + tail, true
-	case "add-unknown-member", "add-member", "add-sibling-member", "add-null-member", "add-null-sibling-member":
+	case "add-unknown-member", "add-member", "add-empty-member", "add-sibling-member", "add-null-member", "add-null-sibling-member":
 		par := at(d2, e.Path)
 		m := par.M[len(par.M)-1]
 		return fmt.Sprintf("edit ins %s %d %s %s", pathToks(e.Path), len(par.M)-1, encKey(m.K), m.V.EncString()) + tail, true
@@ -1115,7 +1152,7 @@ func judgeOne(c *core.Ctx, b *base, ec *ecase, o outcome) {
 		c.Count("unknown_member_added:"+o.class, 1)
 		return
 	}
-	if (e.Kind == "add-member" || e.Kind == "add-sibling-member") && o.class != "parse-error" && o.class != "panic" && o.gdocSame && o.digestSame {
+	if (e.Kind == "add-member" || e.Kind == "add-empty-member" || e.Kind == "add-sibling-member") && o.class != "parse-error" && o.class != "panic" && o.gdocSame && o.digestSame && o.valueSame {
 		// the new member does not reach GOBL's view of the document (a name the struct at that place
 		// does not have is dropped by encoding/json; for a sibling's name: the two elements are of
 		// different types, as the complements of a document are): counted, not judged, like the
@@ -1156,6 +1193,9 @@ func judgeOne(c *core.Ctx, b *base, ec *ecase, o outcome) {
 		why := "the digest did not change although GOBL's view of the document did"
 		if o.gdocSame {
 			why = "the edit is lost when the document is unmarshalled (json.Marshal(e.Document) is unchanged), so the digest cannot see it"
+			if !o.valueSame {
+				why = "the document GOBL holds after reading the text differs from the genuine one, but json.Marshal(e.Document) writes the same bytes for both: what the digest is computed from hides the change"
+			}
 		}
 		c.Fail(cls, where+": the envelope still validates without recalculating: "+why, ec)
 	default: // a validation error raised before verifyDigest is reached
